@@ -112,9 +112,9 @@ type c16MRun struct {
 	everProbed   map[uint64]bool // handed to a probing path at some time
 	dupProbed    map[uint64]bool // a duplicate NEW_CONNECTION_ID arrived while/after the seq was bound to a probing path
 	dupActiveLow map[uint64]bool // a duplicate arrived while the seq was the active one and a higher seq was bound to a path
-	errored     bool
-	closed      bool
-	outcome     string
+	errored      bool
+	closed       bool
+	outcome      string
 
 	rotations, rotByCount, lenient int
 
